@@ -109,6 +109,9 @@ HARNESSES += [
 ] + [
     H(f"c15c01c02_pp_{n}_t", ["C15", "C01", "C02"], tier="thorough", weight=100, timeout=3600)
     for n in ["ifdef", "ifndef", "else"]
+] + [
+    H("c15_pp_ifdef_defined_t", ["C15"], tier="thorough", weight=300, timeout=5400, mem_gb=30),
+    H("c15_pp_ifndef_defined_t", ["C15"], tier="thorough", weight=300, timeout=5400, mem_gb=30),
 ]
 HARNESSES += [
     H("c13_cast_relation_q", ["C13"], weight=60, stubs=1),
